@@ -2,18 +2,10 @@
     qmail-queue, how the size counter relates to stored and transmitted octets,
     and when the hop limit strikes.  For every reader state and every byte
     stream in every segmentation. *)
-From Qv Require Import Common.Bytes Gen.GenNetio Gen.GenSession Model.NetRead Model.Session Spec.LineSpec Proofs.NetReadProofs.
+From Qv Require Import Common.Bytes Gen.GenNetio Gen.GenSession Model.NetRead Model.Session Spec.LineSpec Spec.SessionSpec Proofs.NetReadProofs.
 From Coq Require Import Lia.
 
-Definition stored (seen : list bytes) : bytes := concat (map (fun l => unstuff l ++ [LF]) seen).
-Definition wire (seen : list bytes) : bytes := concat (map (fun l => l ++ [CR; LF]) seen).
-Fixpoint szof (seen : list bytes) : N :=
-  match seen with [] => 0%N | l :: r => (N.of_nat (length (unstuff l)) + 2 + szof r)%N end.
 Definition rstate_ok (r : rstate) : Prop := length (inn r) <= LINEINBUF - 1.
-Definition rcv_line (l : bytes) : bool := negb (N.eqb (nth 0 l 0%N) DOT) && is_received l.
-Definition count_rcv (ls : list bytes) : nat := length (filter rcv_line ls).
-Fixpoint hdr_part (ls : list bytes) : list bytes :=
-  match ls with [] => [] | l :: r => match l with [] => [] | _ => l :: hdr_part r end end.
 Definition data_line (l : bytes) : Prop := no_crlf l /\ is_dot l = false.
 
 Lemma stored_app a b : stored (a ++ b) = stored a ++ stored b.
@@ -269,4 +261,23 @@ Proof.
     split; [rewrite Hs; apply stored_le_szof|exact Hle].
   - cbn [post] in Hp. destruct Hp as (Hb & Ht & Hall). split; [|exact Ht]. split; [exact Hb|apply szof_le_wire].
   - exact Hh.
+Qed.
+
+(** the verdict checker of Spec/SessionSpec.v accepts what the model does, for every reader state and stream:
+    a message ended with D_eod (answered 250 when the queue accepts it) passes with code 250; one ended with
+    D_toobig (answered 552) passes with code 552 whatever lines follow the one that crossed the limit. *)
+Theorem data_verdict_sound fuel o dc r trace d r' :
+  rstate_ok r -> data_loop fuel o dc r trace = (d, r') ->
+  match d with
+  | D_eod _ _ seen => data_verdict_ok (maxbytes o) seen 250 = true
+  | D_toobig l seen => forall rest, data_verdict_ok (maxbytes o) (seen ++ l :: rest) 552 = true
+  | _ => True
+  end.
+Proof.
+  intros Hok H. pose proof (data_loop_spec fuel o dc r trace d r' Hok H) as S.
+  destruct d; try exact Logic.I.
+  - destruct S as (_ & _ & _ & Hs & (_ & Hle) & Hh). unfold data_verdict_ok. cbn [N.eqb Pos.eqb].
+    rewrite Hs in Hle. apply andb_true_intro. split; [apply N.leb_le; exact Hle | apply Nat.leb_le; exact Hh].
+  - destruct S as ((Hb & _) & _). intros rest. unfold data_verdict_ok. cbn [N.eqb Pos.eqb].
+    apply N.ltb_lt. rewrite szof_app. lia.
 Qed.
